@@ -339,6 +339,40 @@ Arguments kernel : clear implicits.
 Definition ns_stop (every off : Z) (t : Z) : Z := ((t - off) / every + 1) * every + off.
 Definition ns_start (every off : Z) (t : Z) : Z := ((t - off) / every) * every + off.
 
+(** Calendar-month windows of [interval.Window] (every = period = n months, offset 0, UTC):
+    [lastIndex] works in "months since the epoch" and the bounds are first-of-month instants:
+    stop = start of month [(monthsSince(t) div n + 1) * n].  The window function is written
+    over a pair (month_of, month_start); the concrete pair is the proleptic Gregorian calendar
+    (days <-> civil date, the standard era/day-of-era algorithm, all divisions flooring). *)
+Definition month_stop_gen (month_of month_start : Z -> Z) (n : Z) (t : Z) : Z :=
+  month_start ((month_of t / n + 1) * n).
+
+Definition ns_per_day : Z := 86400000000000.
+(** (year, month 1..12) of the day number [z] (days since 1970-01-01) *)
+Definition civil_ym_of_days (z0 : Z) : Z * Z :=
+  let z := z0 + 719468 in
+  let era := z / 146097 in
+  let doe := z - era * 146097 in
+  let yoe := (doe - doe / 1460 + doe / 36524 - doe / 146096) / 365 in
+  let doy := doe - (365 * yoe + yoe / 4 - yoe / 100) in
+  let mp := (5 * doy + 2) / 153 in
+  let m := if mp <? 10 then mp + 3 else mp - 9 in
+  let y := yoe + era * 400 in
+  ((if m <=? 2 then y + 1 else y), m).
+(** day number of the first day of month [m] of year [y] *)
+Definition days_of_civil (y0 m : Z) : Z :=
+  let y := if m <=? 2 then y0 - 1 else y0 in
+  let era := y / 400 in
+  let yoe := y - era * 400 in
+  let doy := (153 * (if 2 <? m then m - 3 else m + 9) + 2) / 5 in
+  let doe := yoe * 365 + yoe / 4 - yoe / 100 + doy in
+  era * 146097 + doe - 719468.
+(** monthsSince(t) and the first instant of month number [k] (0 = 1970-01) *)
+Definition month_of (t : Z) : Z :=
+  let '(y, m) := civil_ym_of_days (t / ns_per_day) in (y - 1970) * 12 + (m - 1).
+Definition month_start (k : Z) : Z := days_of_civil (1970 + k / 12) (k mod 12 + 1) * ns_per_day.
+Definition month_stop (n : Z) (t : Z) : Z := month_stop_gen month_of month_start n t.
+
 (* ------------------------------------------------------------------ *)
 (** * Value types and the seven aggregates *)
 Definition sf := spec_float.
@@ -492,7 +526,8 @@ Definition arrs_eqb (a b : list (list (Z * val))) : bool := list_eqb (list_eqb p
 Record case := {
   c_ty : ty;
   c_zero : bool;                       (* whole-series request (WindowEvery = MaxInt64) *)
-  c_every : Z; c_off : Z;              (* nanosecond window otherwise *)
+  c_every : Z; c_off : Z;              (* nanosecond window otherwise ... *)
+  c_months : Z;                        (* ... or, when > 0, a calendar window of that many months (offset 0) *)
   c_chunks : list (list (Z * val));    (* ascending arrays the mock cursor served *)
   c_outs : list (aggk * list (list (Z * val)))  (* per aggregate: arrays the real cursor returned *)
 }.
@@ -505,10 +540,13 @@ Definition served (c : case) (k : aggk) : list (list (Z * val)) :=
   | _ => c_chunks c
   end.
 
+Definition case_stop (c : case) : Z -> Z :=
+  if 0 <? c_months c then month_stop (c_months c) else ns_stop (c_every c) (c_off c).
+
 Definition check_one (c : case) (flat : list (Z * val)) (gs : list (Z * list (Z * val)))
            (ko : aggk * list (list (Z * val))) : bool * bool :=
   let '(k, out) := ko in
-  let st := ns_stop (c_every c) (c_off c) in
+  let st := case_stop c in
   let same := match run_model st (c_zero c) Bblock (c_ty c) k (served c k) with
               | Some m => arrs_eqb out m
               | None => false
@@ -519,6 +557,6 @@ Definition check_one (c : case) (flat : list (Z * val)) (gs : list (Z * list (Z 
 
 Definition check (c : case) : verdict :=
   let flat := concat (c_chunks c) in
-  let gs := if c_zero c then [] else ref_groups (ns_stop (c_every c) (c_off c)) flat in
+  let gs := if c_zero c then [] else ref_groups (case_stop c) flat in
   let rs := map (check_one c flat gs) (c_outs c) in
   judge (forallb fst rs) (forallb snd rs).
